@@ -17,36 +17,43 @@ package query
 //@   assigns nothing
 
 //@ func query.(*binaryReader).uvarint
+//@   flag int64=wrap
 //@   requires b != nil
 //@   ensures result >= 0 && len(b.b) <= old(len(b.b))
 //@   assigns b.b, b.err
 
 //@ func query.(*binaryReader).count
+//@   flag int64=wrap
 //@   requires b != nil
 //@   ensures result >= 0 && result <= len(b.b) && len(b.b) <= old(len(b.b))
 //@   assigns b.b, b.err
 
 //@ func query.(*binaryReader).str
+//@   flag int64=wrap
 //@   requires b != nil
 //@   ensures len(b.b) <= old(len(b.b))
 //@   assigns b.b, b.err
 
 //@ func query.(*binaryReader).byt
+//@   flag int64=wrap
 //@   requires b != nil
 //@   ensures len(b.b) <= old(len(b.b))
 //@   assigns b.b, b.err
 
 //@ func query.(*binaryReader).bitmap
+//@   flag int64=wrap
 //@   requires b != nil
 //@   ensures len(b.b) <= old(len(b.b))
 //@   assigns b.b, b.err
 
 //@ func query.stringSetDecode
+//@   flag int64=wrap
 //@   loop 1:
 //@     invariant l <= len(b) && len(r.b) <= len(b) && set != nil
 //@   ensures true
 
 //@ func query.branchesReposDecode
+//@   flag int64=wrap
 //@   loop 1:
 //@     invariant l <= len(b) && len(r.b) <= len(b) && len(brs) == l && 0 <= $n && $n < l
 //@   ensures true
